@@ -121,6 +121,66 @@ Proof.
   destruct (bytes_eqb k n) eqn:E; [|reflexivity]. apply bytes_eqb_eq in E. subst. contradiction.
 Qed.
 
+(* the same for the list Params.Setup leaves behind when it filters Env.Vars by an allow-list *)
+Definition documented_names (h : host) : list name :=
+  map fst setup_env_head ++ passthrough_present h ++ map fst setup_env_tail.
+
+Lemma base_env_names h s : map fst (base_env h s) = documented_names h.
+Proof.
+  unfold base_env, documented_names. rewrite !map_app, !resolve_all_names, passthrough_names_of. reflexivity.
+Qed.
+
+Lemma base_env_indep h h' s :
+  (forall n, In n host_reads -> host_get h n = host_get h' n) -> base_env h s = base_env h' s.
+Proof.
+  intro H. unfold base_env, host_reads in *.
+  rewrite (resolve_all_indep h h' s setup_env_head), (passthrough_indep h h'),
+    (resolve_all_indep h h' s setup_env_tail); [reflexivity| | |];
+    intros n Hn; apply H; rewrite !in_app_iff; auto.
+Qed.
+
+Lemma setup_env_indep h h' s keep adds :
+  (forall n, In n host_reads -> host_get h n = host_get h' n) ->
+  setup_env h s keep adds = setup_env h' s keep adds.
+Proof. intro H. unfold setup_env. now rewrite (base_env_indep h h' s H). Qed.
+
+Lemma setup_env_ignores_other_var h s keep adds k v :
+  ~ In k host_reads -> setup_env ((k, v) :: h) s keep adds = setup_env h s keep adds.
+Proof.
+  intro Hk. apply setup_env_indep. intros n Hn. apply host_get_cons_other.
+  destruct (bytes_eqb k n) eqn:E; [|reflexivity]. apply bytes_eqb_eq in E. subst. contradiction.
+Qed.
+
+Lemma keep_env_names_incl keep e k : In k (map fst (keep_env keep e)) -> In k (map fst e).
+Proof.
+  destruct keep as [l|]; [|exact (fun H => H)]. unfold keep_env. intro H.
+  apply in_map_iff in H as (kv & <- & Hin). apply filter_In in Hin as [Hin _]. now apply in_map.
+Qed.
+
+Lemma keep_env_names_kept l e k : In k (map fst (keep_env (Some l) e)) -> name_in l k = true.
+Proof.
+  unfold keep_env. intro H. apply in_map_iff in H as (kv & <- & Hin). now apply filter_In in Hin as [_ Hin].
+Qed.
+
+(* every name of the list is a documented one or one Setup added; with an allow-list, the documented
+   ones that remain are on it *)
+Lemma setup_env_names h s keep adds k :
+  In k (map fst (setup_env h s keep adds)) ->
+  (In k (documented_names h) /\ match keep with Some l => name_in l k = true | None => True end)
+  \/ In k (map fst adds).
+Proof.
+  unfold setup_env. rewrite map_app, in_app_iff. intros [H|H]; [left|now right]. split.
+  - rewrite <- (base_env_names h s). now apply keep_env_names_incl in H.
+  - destruct keep as [l|]; [now apply keep_env_names_kept in H | exact I].
+Qed.
+
+(* an allow-list that keeps nothing (or Env.Vars = nil) leaves exactly what Setup adds *)
+Lemma setup_env_keep_nothing h s adds : setup_env h s (Some []) adds = adds.
+Proof.
+  unfold setup_env, keep_env, name_in. cbn [existsb].
+  assert (E : forall e : env, filter (fun _ => false) e = []) by (induction e; auto). now rewrite E.
+Qed.
+
 (* ------------------------------------------------------------------ trees *)
 
 Lemma tree_get_remove t p q :
@@ -441,7 +501,7 @@ Qed.
 Lemma exec_action_effect cfg s a : forall c ss c' ss' o,
   exec_action cfg s c ss a = (c', ss', o) -> exists l, line_effect ss ss' l.
 Proof.
-  induction a as [p d|p ro|p|p|k v|sub keep|id bad|h neg| | | | | | | | |xneg xprog|lp ltg|rp|neg prog a IH]; intros c ss c' ss' o H;
+  induction a as [p d|p ro|p|p|k v|sub keep|id bad|h neg| | | | | | | | |xneg xprog|lp ltg|rp|neg prog a IH| |]; intros c ss c' ss' o H;
     cbn [exec_action] in H.
   - destruct (write_file _ _ _ _); injection H as <- <- <-; exists []; [now apply line_effect_same | apply line_effect_refl].
   - destruct (mkdir_all _ _ _); injection H as <- <- <-; exists []; [now apply line_effect_same | apply line_effect_refl].
@@ -454,13 +514,13 @@ Proof.
   - injection H as <- <- <-. exists []. now apply line_effect_same.
   - injection H as <- <- <-. exists [EvDeferReg id].
     constructor; cbn; try reflexivity; try tauto.
-  - destruct (look _ _ _ _ _).
+  - destruct (bg_by_path h || look _ _ _ _ _).
     + injection H as <- <- <-. exists [EvBgStart h].
       constructor; cbn; try reflexivity.
       * intros h' [<-|[]]. rewrite map_app. apply in_or_app. right. now left.
       * intros h' Hh. left. rewrite map_app. apply in_or_app. now left.
     + injection H as <- <- <-. exists []. apply line_effect_refl.
-  - injection H as <- <- <-. exists [EvProbe (cwd ss) (senv ss) (tr ss)].
+  - injection H as <- <- <-. exists [EvProbe (cwd ss) (child_env cfg s (cwd ss) (senv ss)) (tr ss)].
     constructor; cbn; try reflexivity; try tauto.
   - injection H as <- <- <-. exists []. apply line_effect_refl.
   - destruct (skip_wait (bgl ss)) as [waited ok] eqn:E.
@@ -522,6 +582,8 @@ Proof.
     destruct (Bool.eqb ans (negb neg)).
     + destruct (IH _ _ _ _ _ H) as [l Hl]. exists (EvCond prog ans :: l). now apply line_effect_cond.
     + injection H as <- <- <-. exists [EvCond prog ans]. apply line_effect_cond. apply line_effect_refl.
+  - injection H as <- <- <-. exists []. apply line_effect_refl.
+  - injection H as <- <- <-. exists []. apply line_effect_refl.
 Qed.
 
 (* ------------------------------------------------------------------ the per-script invariant *)
@@ -538,7 +600,7 @@ Definition defers_done (ss : sstate) : Prop :=
 Definition setup_ok (cfg : config) (p : script) (s : nat) (ss : sstate) : Prop :=
   setup_events (obs ss) = [] \/
   exists t, setup_result cfg p = Some t /\
-            setup_events (obs ss) = [(initial_env (hostenv cfg) s (setup_adds p), t, escapes_of cfg p)].
+            setup_events (obs ss) = [(setup_env (hostenv cfg) s (setup_keep p) (setup_adds p), t, escapes_of cfg p)].
 
 Definition sinv (cfg : config) (p : script) (s : nat) (ss : sstate) : Prop :=
   bgok ss /\ setup_ok cfg p s ss /\
@@ -604,10 +666,10 @@ Proof.
     destruct (defer_regs_of_setup (setup_defers p)) as (R1 & R2 & R3 & R4 & R5).
     destruct (setup_result cfg p) as [t|] eqn:Et.
     + assert (K : forall ph0, match ph0 with Running _ | Ending _ SDefers => True | _ => False end ->
-                  sinv cfg p s {| ph := ph0; cwd := []; senv := initial_env (hostenv cfg) s (setup_adds p); tr := t;
+                  sinv cfg p s {| ph := ph0; cwd := []; senv := setup_env (hostenv cfg) s (setup_keep p) (setup_adds p); tr := t;
                                   wpresent := true; dstack := rev (setup_defers p); bgl := []; failedf := false;
                                   obs := map (fun d => EvDeferReg (fst d)) (setup_defers p)
-                                         ++ [EvSetup (initial_env (hostenv cfg) s (setup_adds p)) t (escapes_of cfg p)] |}).
+                                         ++ [EvSetup (setup_env (hostenv cfg) s (setup_keep p) (setup_adds p)) t (escapes_of cfg p)] |}).
       { intros ph0 Hph0. unfold sinv, bgok, setup_ok, defers_pending. cbn [obs bgl ph dstack wpresent].
         rewrite bg_started_app, setup_events_app, work_removed_app, defer_runs_app, defer_regs_app, R1, R2, R3, R4, R5.
         cbn [app bg_started setup_events work_removed defer_runs defer_regs flat_map].
@@ -637,7 +699,7 @@ Proof.
           + now rewrite A1, work_removed_app, R1, A6.
           + intros _. rewrite A3. apply R2. try rewrite Eph; discriminate.
         - destruct (ph ssx) as [|?|? []|?|]; try contradiction; exact DP. }
-      destruct o; [| destruct (continue_on_error cfg) | | | |]; apply K; try reflexivity; exact I.
+      destruct o; [| destruct (continue_on_error cfg) | | | | | |]; apply K; try reflexivity; exact I.
     + injection H as <- <- <-. unfold sinv. cbn [set_ph ph obs bgl dstack wpresent].
       split; [exact B|]. split; [exact SU|]. split; [|exact PH].
       intro Hr. destruct (RT Hr) as [R1 R2]. split; [exact R1|]. intros _. apply R2. try rewrite Eph; discriminate.
@@ -748,7 +810,7 @@ Proof.
   - destruct (setup_result cfg p); [destruct (setup_err p)|]; injection H as <- <- <-; left; unfold is_done; cbn; now rewrite Eph.
   - destruct (nth_error (body p) pc).
     + destruct (exec_action cfg s c ss a) as [[c1 ss1] o]. injection H as <- <- <-. left.
-      unfold is_done. rewrite Eph. destruct o; [| destruct (continue_on_error cfg) | | | |]; reflexivity.
+      unfold is_done. rewrite Eph. destruct o; [| destruct (continue_on_error cfg) | | | | | |]; reflexivity.
     + injection H as <- <- <-. left. unfold is_done. cbn. now rewrite Eph.
   - destruct st; try (injection H as <- <- <-; left; unfold is_done; cbn; now rewrite Eph).
     destruct (retain cfg) eqn:Er; injection H as <- <- <-; [now right|].
@@ -922,6 +984,27 @@ Proof.
   - unfold resolve_all. apply Forall_map. apply Forall_forall. intros [n src] _. cbn. destruct src; cbn; auto.
 Qed.
 
+Lemma base_env_ok h s : env_ok s (base_env h s).
+Proof.
+  pose proof (initial_env_ok h s [] (Forall_nil _)) as H. unfold initial_env in H.
+  unfold base_env. unfold env_ok in *. rewrite !Forall_app in *. tauto.
+Qed.
+
+Lemma keep_env_ok s keep e : env_ok s e -> env_ok s (keep_env keep e).
+Proof.
+  intro H. destruct keep as [l|]; [|exact H]. unfold keep_env, env_ok in *.
+  apply Forall_forall. intros x Hx. apply filter_In in Hx as [Hx _]. revert x Hx. now apply Forall_forall.
+Qed.
+
+Lemma setup_env_ok h s keep adds : env_ok s adds -> env_ok s (setup_env h s keep adds).
+Proof.
+  intro H. unfold setup_env, env_ok. apply Forall_app. split; [|exact H].
+  apply keep_env_ok, base_env_ok.
+Qed.
+
+Lemma setup_env_none h s adds : setup_env h s None adds = initial_env h s adds.
+Proof. unfold setup_env, keep_env, base_env, initial_env. now rewrite <- !app_assoc. Qed.
+
 Definition key_lit (k : ckey) : Prop := exists b, fst k = Some (VLit b).
 Definition usable (s : nat) (k : ckey) : Prop := exists pv, fst k = Some pv /\ owner_ok s pv.
 Definition hostval (cfg : config) (k : ckey) : bool :=
@@ -994,7 +1077,7 @@ Qed.
 Lemma exec_action_env_ok cfg s a : forall c ss c' ss' o,
   exec_action cfg s c ss a = (c', ss', o) -> env_ok s (senv ss) -> env_ok s (senv ss').
 Proof.
-  induction a as [p d|p ro|p|p|k v|sub keep|id bad|h neg| | | | | | | | |xneg xprog|lp ltg|rp|neg prog a IH]; intros c ss c' ss' o H E;
+  induction a as [p d|p ro|p|p|k v|sub keep|id bad|h neg| | | | | | | | |xneg xprog|lp ltg|rp|neg prog a IH| |]; intros c ss c' ss' o H E;
     cbn [exec_action] in H.
   - destruct (write_file _ _ _ _); injection H as <- <- <-; exact E.
   - destruct (mkdir_all _ _ _); injection H as <- <- <-; exact E.
@@ -1004,7 +1087,7 @@ Proof.
   - injection H as <- <- <-. cbn [set_env senv]. apply Forall_app. split; [exact E|]. constructor; [exact I|constructor].
   - injection H as <- <- <-. cbn [set_env senv]. apply Forall_app. split; [exact E|]. constructor; [reflexivity|constructor].
   - injection H as <- <- <-. exact E.
-  - destruct (look _ _ _ _ _); injection H as <- <- <-; exact E.
+  - destruct (bg_by_path h || look _ _ _ _ _); injection H as <- <- <-; exact E.
   - injection H as <- <- <-. exact E.
   - injection H as <- <- <-. exact E.
   - destruct (skip_wait (bgl ss)) as [waited ok]. destruct ok; injection H as <- <- <-; exact E.
@@ -1019,6 +1102,8 @@ Proof.
   - destruct (cached_look cfg s c ss prog) as [ans c1]. destruct (Bool.eqb ans (negb neg)).
     + eapply IH; eauto.
     + injection H as <- <- <-. exact E.
+  - injection H as <- <- <-. exact E.
+  - injection H as <- <- <-. exact E.
 Qed.
 
 (* a line without [exec:...] neither reads nor writes the cache *)
@@ -1042,7 +1127,7 @@ Lemma exec_action_sim cfg s a : key_by_path cfg = true ->
   exec_action cfg s cb ss a = (cb', ssb, ob) -> exec_action cfg s ca ss a = (ca', ssa, oa) ->
   ssb = ssa /\ ob = oa /\ Rel cfg s cb' ca' /\ Glob cfg cb' /\ frame_others cfg s cb cb'.
 Proof.
-  intro Hk. induction a as [p d|p ro|p|p|k v|sub keep|id bad|h neg| | | | | | | | |xneg xprog|lp ltg|rp|neg prog a IH];
+  intro Hk. induction a as [p d|p ro|p|p|k v|sub keep|id bad|h neg| | | | | | | | |xneg xprog|lp ltg|rp|neg prog a IH| |];
     intros cb ca ss cb' ssb ob ca' ssa oa R G E Hb Ha.
   20: {
     cbn [exec_action] in Hb, Ha.
@@ -1079,7 +1164,7 @@ Proof.
   - destruct (setup_result cfg p) as [t|].
     + destruct (setup_err p); injection Hb as <- <- <-; injection Ha as <- <- <-;
         (split; [reflexivity|]); (split; [exact R|]); (split; [exact G|]);
-        (split; [cbn; now apply initial_env_ok | apply frame_others_refl]).
+        (split; [cbn; now apply setup_env_ok | apply frame_others_refl]).
     + injection Hb as <- <- <-; injection Ha as <- <- <-.
       split; [reflexivity|]. split; [exact R|]. split; [exact G|]. split; [constructor | apply frame_others_refl].
   - destruct (nth_error (body p) pc) as [a|].
@@ -1089,7 +1174,7 @@ Proof.
       injection Hb as <- <- <-; injection Ha as <- <- <-.
       split; [reflexivity|]. split; [exact R1|]. split; [exact G1|]. split; [|exact F1].
       assert (E1 : env_ok s (senv ssa1)) by (eapply exec_action_env_ok; eauto).
-      destruct oa; [| destruct (continue_on_error cfg) | | | |]; exact E1.
+      destruct oa; [| destruct (continue_on_error cfg) | | | | | |]; exact E1.
     + injection Hb as <- <- <-; injection Ha as <- <- <-.
       split; [reflexivity|]. split; [exact R|]. split; [exact G|]. split; [exact E | apply frame_others_refl].
   - destruct st; try (injection Hb as <- <- <-; injection Ha as <- <- <-;
@@ -1222,15 +1307,15 @@ Qed.
 Definition b_bin : name := [x62; x69; x6e].
 Definition b_tool : name := [x6d; x79; x74; x6f; x6f; x6c].
 Definition cfg_prog_key : config :=
-  {| retain := false; key_by_path := false; names_see_env := true; names_contained := true; empty_cleans := true; continue_on_error := false; has_cancel := false; is_root := true;
+  {| retain := false; key_by_path := false; names_see_env := true; names_contained := true; empty_cleans := true; continue_on_error := false; has_cancel := false; pwd_appended := true; precancel_guarded := true; is_root := true;
      hostenv := [(PATH, [x2f; x75; x73; x72; x2f; x62; x69; x6e])]; hosttab := []; helper := [x68] |}.
 (* A: chmod 755 bin/mytool; env PATH=$WORK/bin; [exec:mytool] stop; then a failing line.
    B: [exec:mytool] then a failing line (mytool is not on the host PATH). *)
 Definition script_A : script :=
-  {| archive := [([b_bin; b_tool], [])]; work_named := []; escaping_at := None; setup_adds := []; setup_defers := []; setup_err := false;
+  {| archive := [([b_bin; b_tool], [])]; work_named := []; escaping_at := None; setup_keep := None; setup_adds := []; setup_defers := []; setup_err := false;
      body := [AChmodX [b_bin; b_tool]; ASetPathOwn [b_bin] false; AIfExec false b_tool AStop; AFail] |}.
 Definition script_B : script :=
-  {| archive := []; work_named := []; escaping_at := None; setup_adds := []; setup_defers := []; setup_err := false;
+  {| archive := []; work_named := []; escaping_at := None; setup_keep := None; setup_adds := []; setup_defers := []; setup_err := false;
      body := [AIfExec false b_tool AFail] |}.
 
 Definition verdict_of (st : bstate) (s : nat) : option phase := option_map ph (nth_error (scripts st) s).
@@ -1247,7 +1332,7 @@ Proof. vm_compute. repeat split. Qed.
 
 (* the same two scripts with the key that includes PATH: both orders agree with the solitary runs *)
 Example path_key_order_independent :
-  let cfg := {| retain := false; key_by_path := true; names_see_env := true; names_contained := true; empty_cleans := true; continue_on_error := false; has_cancel := false; is_root := true;
+  let cfg := {| retain := false; key_by_path := true; names_see_env := true; names_contained := true; empty_cleans := true; continue_on_error := false; has_cancel := false; pwd_appended := true; precancel_guarded := true; is_root := true;
                 hostenv := hostenv cfg_prog_key; hosttab := []; helper := [x68] |} in
   let progs := [script_A; script_B] in
   let a_first := repeat 0 12 ++ repeat 1 12 in
@@ -1281,7 +1366,7 @@ Proof.
   - destruct (nth_error (body p) pc) as [a|] eqn:Ea.
     + destruct (exec_action cfg s c ss a) as [[c1 ss1] o]. injection H as <- <- <-. cbn [ph set_ph].
       assert (pc < length (body p)) by (apply nth_error_Some; congruence).
-      destruct o; [| destruct (continue_on_error cfg) | | | |]; cbn [ph set_ph set_failed]; lia.
+      destruct o; [| destruct (continue_on_error cfg) | | | | | |]; cbn [ph set_ph set_failed]; lia.
     + injection H as <- <- <-. cbn [ph set_ph]. lia.
   - destruct st; try (injection H as <- <- <-; cbn [ph set_ph]; lia).
     destruct (retain cfg); injection H as <- <- <-; cbn [ph set_ph]; lia.
@@ -1323,7 +1408,7 @@ Qed.
 (* a script without a bare `wait` never gets stuck *)
 Lemma exec_action_not_stuck cfg s a : has_wait a = false -> forall c ss, snd (exec_action cfg s c ss a) <> OStuck.
 Proof.
-  induction a as [p d|p ro|p|p|k v|sub keep|id bad|h neg| | | | | | | | |xneg xprog|lp ltg|rp|neg prog a IH]; intros Hw c ss;
+  induction a as [p d|p ro|p|p|k v|sub keep|id bad|h neg| | | | | | | | |xneg xprog|lp ltg|rp|neg prog a IH| |]; intros Hw c ss;
     cbn [exec_action has_wait] in *; try discriminate;
     repeat match goal with
            | |- context [match ?x with _ => _ end] => destruct x
@@ -1343,7 +1428,7 @@ Proof.
       congruence. }
     pose proof (exec_action_not_stuck cfg s a Ha c ss) as N.
     destruct (exec_action cfg s c ss a) as [[c1 ss1] o]. cbn [snd fst] in *.
-    destruct o; [| destruct (continue_on_error cfg) | | | |]; cbn; try discriminate. contradiction.
+    destruct o; [| destruct (continue_on_error cfg) | | | | | |]; cbn; try discriminate. contradiction.
   - destruct st; cbn; try discriminate. destruct (retain cfg); cbn; discriminate.
   - cbn. rewrite Eph. discriminate.
 Qed.
@@ -1406,7 +1491,7 @@ Proof. intro H. unfold setup_events. apply in_flat_map. exists (EvSetup e t o). 
 Lemma setup_event_is_initial cfg progs sched s p ss e t o :
   nth_error progs s = Some p -> nth_error (scripts (run cfg progs (init progs) sched)) s = Some ss ->
   In (EvSetup e t o) (obs ss) ->
-  e = initial_env (hostenv cfg) s (setup_adds p) /\ setup_result cfg p = Some t
+  e = setup_env (hostenv cfg) s (setup_keep p) (setup_adds p) /\ setup_result cfg p = Some t
   /\ o = escapes_of cfg p.
 Proof.
   intros Hp Hs Hin. destruct (reachable_sinv _ _ _ _ _ _ Hp Hs) as (_ & SU & _).
@@ -1417,13 +1502,21 @@ Qed.
 Lemma env_from_scratch cfg progs sched s p ss e t o :
   nth_error progs s = Some p -> nth_error (scripts (run cfg progs (init progs) sched)) s = Some ss ->
   In (EvSetup e t o) (obs ss) ->
-  e = initial_env (hostenv cfg) s (setup_adds p)
-  /\ map fst e = map fst setup_env_head ++ passthrough_present (hostenv cfg) ++ map fst setup_env_tail ++ map fst (setup_adds p)
+  e = setup_env (hostenv cfg) s (setup_keep p) (setup_adds p)
+  /\ (setup_keep p = None ->
+      map fst e = map fst setup_env_head ++ passthrough_present (hostenv cfg) ++ map fst setup_env_tail ++ map fst (setup_adds p))
+  /\ (forall k, In k (map fst e) ->
+        (In k (map fst setup_env_head ++ passthrough_present (hostenv cfg) ++ map fst setup_env_tail)
+         /\ match setup_keep p with Some l => name_in l k = true | None => True end)
+        \/ In k (map fst (setup_adds p)))
   /\ (forall h', (forall n, In n host_reads -> host_get h' n = host_get (hostenv cfg) n) ->
-                 initial_env h' s (setup_adds p) = e).
+                 setup_env h' s (setup_keep p) (setup_adds p) = e).
 Proof.
   intros Hp Hs Hin. destruct (setup_event_is_initial _ _ _ _ _ _ _ _ _ Hp Hs Hin) as (-> & _ & _).
-  split; [reflexivity|]. split; [apply initial_env_names|]. intros h' H. now apply initial_env_indep.
+  split; [reflexivity|]. split; [|split].
+  - intros ->. rewrite setup_env_none. apply initial_env_names.
+  - intros k Hk. exact (setup_env_names _ _ _ _ _ Hk).
+  - intros h' H. now apply setup_env_indep.
 Qed.
 
 (* the statement tied to the generated constants: it goes through only if setup() makes the
@@ -1470,9 +1563,9 @@ Lemma unexpanded_names_refuted :
     snd (fst (sstep cfg p 0 [] sstate0)) = ss /\ In (EvSetup e t o) (obs ss) /\
     o <> [] /\ exists q, tree_get t q <> expected_node (archive p) q.
 Proof.
-  exists {| retain := false; key_by_path := true; names_see_env := false; names_contained := true; empty_cleans := true; continue_on_error := false; has_cancel := false; is_root := true;
+  exists {| retain := false; key_by_path := true; names_see_env := false; names_contained := true; empty_cleans := true; continue_on_error := false; has_cancel := false; pwd_appended := true; precancel_guarded := true; is_root := true;
             hostenv := []; hosttab := []; helper := [] |},
-         {| archive := [([[x66]], [x31])]; work_named := [[[x66]]]; escaping_at := None; setup_adds := []; setup_defers := [];
+         {| archive := [([[x66]], [x31])]; work_named := [[[x66]]]; escaping_at := None; setup_keep := None; setup_adds := []; setup_defers := [];
             setup_err := false; body := [] |}.
   do 4 eexists. split; [reflexivity|]. split; [reflexivity|]. split; [cbn; left; reflexivity|].
   split; [discriminate|]. exists [[x66]]. vm_compute. discriminate.
@@ -1486,8 +1579,8 @@ Lemma uncontained_names_refuted :
     snd (fst (sstep cfg p 0 [] sstate0)) = ss /\ In (EvSetup e t o) (obs ss) /\ o <> [].
 Proof.
   exists {| retain := false; key_by_path := true; names_see_env := true; names_contained := false; empty_cleans := true;
-            continue_on_error := false; has_cancel := false; is_root := true; hostenv := []; hosttab := []; helper := [] |},
-         {| archive := [([[x66]], [x31]); ([[x2e; x2e]; [x78]], [x32])]; work_named := []; escaping_at := Some 1;
+            continue_on_error := false; has_cancel := false; pwd_appended := true; precancel_guarded := true; is_root := true; hostenv := []; hosttab := []; helper := [] |},
+         {| archive := [([[x66]], [x31]); ([[x2e; x2e]; [x78]], [x32])]; work_named := []; escaping_at := Some 1; setup_keep := None;
             setup_adds := []; setup_defers := []; setup_err := false; body := [] |}.
   do 4 eexists. split; [reflexivity|]. split; [reflexivity|]. split; [reflexivity|]. split; [cbn; left; reflexivity|].
   discriminate.
@@ -1503,14 +1596,14 @@ Proof.
   unfold start. rewrite He', Hr. cbn. auto.
 Qed.
 
-Lemma start_nonempty cfg progs : progs <> [] -> start cfg progs = init progs.
-Proof. destruct progs; [contradiction | reflexivity]. Qed.
+Lemma start_nonempty cfg progs : precancel_guarded cfg = true -> progs <> [] -> start cfg progs = init progs.
+Proof. intros Hg. destruct progs; [contradiction | cbn [start]; now rewrite Hg]. Qed.
 
 Lemma empty_batch_refuted :
   exists cfg, empty_cleans cfg = false /\ retain cfg = false /\ root_present (sh (start cfg [])) = true.
 Proof.
   exists {| retain := false; key_by_path := true; names_see_env := true; names_contained := true; empty_cleans := false;
-            continue_on_error := false; has_cancel := false; is_root := true; hostenv := []; hosttab := []; helper := [] |}.
+            continue_on_error := false; has_cancel := false; pwd_appended := true; precancel_guarded := true; is_root := true; hostenv := []; hosttab := []; helper := [] |}.
   repeat split.
 Qed.
 
@@ -1608,17 +1701,17 @@ Qed.
 (* ------------------------------------------------------------------ examples: every exit path occurs *)
 
 Definition ex_cfg : config :=
-  {| retain := false; key_by_path := true; names_see_env := true; names_contained := true; empty_cleans := true; continue_on_error := false; has_cancel := true; is_root := false;
+  {| retain := false; key_by_path := true; names_see_env := true; names_contained := true; empty_cleans := true; continue_on_error := false; has_cancel := true; pwd_appended := true; precancel_guarded := true; is_root := false;
      hostenv := [(PATH, [x2f; x62]); ([x47; x4f; x52; x41; x43; x45], [x78]); ([x43; x41; x4e; x41; x52; x59], [x31])];
      hosttab := [(([x2f; x62], [x68]), true)]; helper := [x68] |}.
 Definition ex_script (b : list action) : script :=
-  {| archive := [([[x61]], [x31]); ([[x77]], [x32])]; work_named := [[[x77]]]; escaping_at := None; setup_adds := [([x58], VWork 0 [[x67]])]; setup_defers := [(7, false)]; setup_err := false; body := b |}.
+  {| archive := [([[x61]], [x31]); ([[x77]], [x32])]; work_named := [[[x77]]]; escaping_at := None; setup_keep := None; setup_adds := [([x58], VWork 0 [[x67]])]; setup_defers := [(7, false)]; setup_err := false; body := b |}.
 Definition ex_progs : list script :=
   [ ex_script [ADefer 1 false; ABg 1 false; ADefer 2 false; AProbe];
     ex_script [ADefer 1 false; ABg 1 false; AFail; ADefer 2 false];
     ex_script [ADefer 1 false; ABg 1 true; ASkip];
     ex_script [ABg 1 false; ADefer 1 false; AStop; AFail];
-    {| archive := [([[x61]], [x31]); ([[x61]; [x62]], [x32])]; work_named := []; escaping_at := None; setup_adds := []; setup_defers := []; setup_err := false; body := [] |};
+    {| archive := [([[x61]], [x31]); ([[x61]; [x62]], [x32])]; work_named := []; escaping_at := None; setup_keep := None; setup_adds := []; setup_defers := []; setup_err := false; body := [] |};
     ex_script [ADefer 1 true; ADefer 2 false; ABg 3 false];
     ex_script [AMkdir [[x64]] true; AWrite [[x64]; [x66]] [x31]] ].
 
@@ -1635,7 +1728,7 @@ Example continue_on_error_example :
   (* ContinueOnError: a failing line, then more lines, then skip: the run fails; kill + wait with a
      negated background line is accepted *)
   let cfg := {| retain := false; key_by_path := true; names_see_env := true; names_contained := true; empty_cleans := true;
-                continue_on_error := true; has_cancel := false; is_root := true; hostenv := hostenv ex_cfg;
+                continue_on_error := true; has_cancel := false; pwd_appended := true; precancel_guarded := true; is_root := true; hostenv := hostenv ex_cfg;
                 hosttab := hosttab ex_cfg; helper := [x68] |} in
   let progs := [ex_script [AFail; ADefer 1 false; AProbe; ASkip]; ex_script [ABg 1 true; AKillWait; AProbe];
                 ex_script [ABg 1 false; AKill; AFail; AStop]] in
@@ -1659,3 +1752,210 @@ Proof. vm_compute. repeat split. Qed.
 
 Example wf_example : forall s p, nth_error [ex_script [AProbe]] s = Some p -> wf_script s p.
 Proof. intros [|s] p H; cbn in H; [|destruct s; discriminate]. injection H as <-. repeat constructor. Qed.
+
+(* ------------------------------------------------------------------ what a started program sees *)
+
+Lemma env_get_snoc e k v k' :
+  env_get (e ++ [(k, v)]) k' = if bytes_eqb k k' then Some v else env_get e k'.
+Proof. unfold env_get. rewrite rev_app_distr. reflexivity. Qed.
+
+(* With append(ts.env, "PWD="+ts.cd) - what the generated constant says the source does - the
+   environment of a program is the script's own list followed by PWD: never empty (so os/exec never
+   substitutes the environment of the test process), PWD is the directory the program runs in whatever
+   the script has set PWD to, and every other name has the value the script gave it. *)
+Lemma child_env_scratch cfg s cd e :
+  pwd_appended cfg = true ->
+  child_env cfg s cd e = e ++ [(PWD, VWork s cd)]
+  /\ child_env cfg s cd e <> []
+  /\ env_get (child_env cfg s cd e) PWD = Some (VWork s cd)
+  /\ (forall k, bytes_eqb PWD k = false -> env_get (child_env cfg s cd e) k = env_get e k).
+Proof.
+  intro H. unfold child_env. rewrite H. split; [reflexivity|]. split; [now destruct e|]. split.
+  - rewrite env_get_snoc. now rewrite (proj2 (bytes_eqb_eq PWD PWD) eq_refl).
+  - intros k Hk. now rewrite env_get_snoc, Hk.
+Qed.
+
+Lemma probe_outcome cfg s c ss :
+  pwd_appended cfg = true ->
+  exec_action cfg s c ss AProbe
+  = (c, add_obs ss [EvProbe (cwd ss) (senv ss ++ [(PWD, VWork s (cwd ss))]) (tr ss)], OCont).
+Proof. intro H. cbn [exec_action]. unfold child_env. now rewrite H. Qed.
+
+(* the names a program started right after setup can see: documented ones (on the allow-list, if Setup
+   has one), Setup's, and PWD; nothing else of the host *)
+Lemma child_env_names_after_setup cfg s p k :
+  pwd_appended cfg = true ->
+  In k (map fst (child_env cfg s [] (setup_env (hostenv cfg) s (setup_keep p) (setup_adds p)))) ->
+  (In k (documented_names (hostenv cfg)) /\ match setup_keep p with Some l => name_in l k = true | None => True end)
+  \/ In k (map fst (setup_adds p)) \/ k = PWD.
+Proof.
+  intros H Hin. destruct (child_env_scratch cfg s [] (setup_env (hostenv cfg) s (setup_keep p) (setup_adds p)) H) as [E _].
+  rewrite E, map_app, in_app_iff in Hin. destruct Hin as [Hin|[<-|[]]].
+  - destruct (setup_env_names _ _ _ _ _ Hin) as [?|?]; auto.
+  - right. now right.
+Qed.
+
+(* With ts.env passed as it is, a script whose Setup keeps no variable hands every program the whole
+   environment of the test process. *)
+Lemma child_env_without_pwd_refuted :
+  exists cfg p s canary v,
+    pwd_appended cfg = false /\ ~ In canary host_reads /\
+    env_get (child_env cfg s [] (setup_env (hostenv cfg) s (setup_keep p) (setup_adds p))) canary = Some (VLit v)
+    /\ v <> [].
+Proof.
+  exists {| retain := false; key_by_path := true; names_see_env := true; names_contained := true; empty_cleans := true;
+            continue_on_error := false; has_cancel := false; pwd_appended := false; precancel_guarded := true; is_root := true;
+            hostenv := hostenv ex_cfg; hosttab := []; helper := [] |},
+         {| archive := []; work_named := []; escaping_at := None; setup_keep := Some []; setup_adds := []; setup_defers := [];
+            setup_err := false; body := [AProbe] |}, 0, [x43; x41; x4e; x41; x52; x59], [x31].
+  split; [reflexivity|]. split.
+  - vm_compute. intros H. repeat (destruct H as [H|H]; [discriminate H|]). exact H.
+  - split; [vm_compute; reflexivity | discriminate].
+Qed.
+
+Example child_env_example :
+  (* Setup keeps nothing: the program sees PWD only; after cd and env PWD=x it still sees the directory it runs in *)
+  let p := {| archive := [([[x64]; [x61]], [x31])]; work_named := []; escaping_at := None; setup_keep := Some []; setup_adds := [];
+              setup_defers := []; setup_err := false; body := [AProbe; ACd [[x64]]; ASetenv PWD [x78]; AProbe] |} in
+  let st := run ex_cfg [p] (init [p]) (round_robin 1 12) in
+  map (fun ss => flat_map (fun e => match e with EvProbe c e _ => [(c, e)] | _ => [] end) (obs ss)) (scripts st)
+  = [[([], [(PWD, VWork 0 [])]); ([[x64]], [(PWD, VLit [x78]); (PWD, VWork 0 [[x64]])])]].
+Proof. vm_compute. reflexivity. Qed.
+
+(* ------------------------------------------------------------------ deferred functions that do not return *)
+
+Lemma verdict_of_marks_same v : verdict_of_marks v (marks_of v) = v.
+Proof. destruct v; reflexivity. Qed.
+
+Lemma fold_after_defer_ret l m :
+  (forall e, In e l -> e = DRet) -> fold_left after_defer l m = m.
+Proof.
+  revert m. induction l as [|e l IH]; intros m H; [reflexivity|]. cbn [fold_left].
+  rewrite (H e (or_introl eq_refl)). cbn [after_defer]. apply IH. intros e' He'. apply H. now right.
+Qed.
+
+(* functions that all return leave the verdict alone *)
+Lemma defers_verdict_all_return d v :
+  (forall x, In x d -> defer_end x = DRet) -> defers_verdict d v = v.
+Proof.
+  intro H. unfold defers_verdict. rewrite fold_after_defer_ret; [apply verdict_of_marks_same|].
+  intros e He. apply in_map_iff in He as (x & <- & Hx). now apply H.
+Qed.
+
+Lemma fold_after_defer_failed l m : m_failed m = true -> m_failed (fold_left after_defer l m) = true.
+Proof.
+  revert m. induction l as [|e l IH]; intros m H; [exact H|]. cbn [fold_left]. apply IH.
+  destruct e; cbn; try exact H; reflexivity.
+Qed.
+
+Lemma fold_after_defer_failnow l m : In DFailNow l -> m_failed (fold_left after_defer l m) = true.
+Proof.
+  revert m. induction l as [|e l IH]; intros m H; [destruct H|]. cbn [fold_left].
+  destruct H as [->|H]; [apply fold_after_defer_failed; reflexivity | now apply IH].
+Qed.
+
+Definition is_failure (v : verdict) : bool :=
+  match v with VFail | VSetupFail | VPanic => true | _ => false end.
+
+(* a failure is never lost: a run that failed, or one of whose deferred functions calls FailNow / Fatal,
+   ends as a failure (or a panic) whatever the other deferred functions do - skip, panic, fail *)
+Lemma defers_verdict_keeps_failure d v :
+  (v = VFail \/ v = VSetupFail \/ exists x, In x d /\ defer_end x = DFailNow) ->
+  is_failure (defers_verdict d v) = true.
+Proof.
+  intro H. unfold defers_verdict.
+  assert (F : m_failed (fold_left after_defer (map defer_end d) (marks_of v)) = true).
+  { destruct H as [->|[->|(x & Hx & E)]]; [now apply fold_after_defer_failed | now apply fold_after_defer_failed|].
+    apply fold_after_defer_failnow. rewrite <- E. now apply in_map. }
+  unfold verdict_of_marks. rewrite F. destruct (m_panicking _); [reflexivity|]. now destruct v.
+Qed.
+
+Example defers_verdict_examples :
+  (* run order: the first of the list runs first.  A panic after a Skip is seen by the caller; a Skip after
+     a panic aborts the panic; FailNow sticks *)
+  defers_verdict [(300, false); (7, true)] VPass = VPanic
+  /\ defers_verdict [(7, true); (300, false)] VPass = VSkip
+  /\ defers_verdict [(7, true); (300, false)] VFail = VFail
+  /\ defers_verdict [(200, false); (300, false)] VStop = VFail
+  /\ defers_verdict [(300, false)] VPanic = VSkip
+  /\ defers_verdict [(1, false); (2, false)] VStop = VStop.
+Proof. vm_compute. repeat split. Qed.
+
+Example abnormal_defers_example :
+  (* deferred functions that fail, skip and panic, runs left early by a failing line and by T.Skip /
+     T.FailNow from a custom command, with a background command still running (one started by its path
+     with no PATH at all): every function runs, in reverse order, and every command is interrupted and
+     waited for *)
+  let p0 := ex_script [ADefer 200 false; ABg 1 false; ADefer 2 false; AFail] in
+  let p1 := ex_script [ADefer 300 false; ABg 1 false; ATSkip] in
+  let p2 := ex_script [ADefer 3 true; ABg 1 false; ATFail] in
+  let p3 := {| archive := []; work_named := []; escaping_at := None; setup_keep := Some []; setup_adds := [];
+               setup_defers := [(301, false)]; setup_err := false; body := [ABg 30 true; ABg 1 true; AProbe] |} in
+  let progs := [p0; p1; p2; p3] in
+  let st := run ex_cfg progs (init progs) (round_robin 4 12) in
+  map ph (scripts st) = [Done VFail; Done VSkip; Done VPanic; Done VSkip]
+  /\ map (fun ss => defer_runs (obs ss)) (scripts st) = [[2; 200; 7]; [300; 7]; [3; 7]; [301]]
+  /\ map (fun ss => (bg_started (obs ss), bg_gone (obs ss), bg_waited (obs ss))) (scripts st)
+     = [([1], [1], [1]); ([1], [1], [1]); ([1], [1], [1]); ([30], [30], [30])].
+Proof. vm_compute. repeat split. Qed.
+
+(* ------------------------------------------------------------------ the shared context lives as long as a script runs *)
+
+(* Outside the subtests RunT cancels the context (and removes the root) only when there is no script -
+   what the generated constant says about the source.  Then, with or without retention, the context is
+   not cancelled while a script is unfinished: a script that finishes before the deadline never meets
+   a context that is done. *)
+Lemma context_lives_while_scripts_run cfg progs sched :
+  precancel_guarded cfg = true -> progs <> [] ->
+  let st := run cfg progs (start cfg progs) sched in
+  all_done st = false -> cancelled (sh st) = false.
+Proof.
+  intros Hg Hne. rewrite (start_nonempty cfg progs Hg Hne). cbv zeta. intro Hd. destruct (retain cfg) eqn:Er.
+  - now destruct (retention_keeps_everything cfg progs sched Er) as (_ & _ & C & _).
+  - destruct (refcount_root cfg progs sched Er Hne) as (_ & H & _). now destruct (H Hd) as (_ & _ & C).
+Qed.
+
+(* With a cancel() that RunT itself runs under some retention setting although there are scripts, it
+   is false: every script starts under a context that is already done. *)
+Lemma precancel_refuted :
+  exists cfg progs, precancel_guarded cfg = false /\ has_cancel cfg = true /\ retain cfg = true /\ progs <> [] /\
+    all_done (start cfg progs) = false /\ cancelled (sh (start cfg progs)) = true.
+Proof.
+  exists {| retain := true; key_by_path := true; names_see_env := true; names_contained := true; empty_cleans := true;
+            continue_on_error := false; has_cancel := true; pwd_appended := true; precancel_guarded := false; is_root := true;
+            hostenv := []; hosttab := []; helper := [] |}, [ex_script [AProbe]].
+  repeat split; try reflexivity. discriminate.
+Qed.
+
+Example context_lives_example :
+  (* seven scripts under retention (-testwork) with a deadline: after every prefix of the schedule the
+     context is still alive; without retention it is cancelled exactly when the last one has finished *)
+  let cfg := {| retain := true; key_by_path := true; names_see_env := true; names_contained := true; empty_cleans := true;
+                continue_on_error := false; has_cancel := true; pwd_appended := true; precancel_guarded := true; is_root := false;
+                hostenv := hostenv ex_cfg; hosttab := hosttab ex_cfg; helper := [x68] |} in
+  forallb (fun k => negb (cancelled (sh (run cfg ex_progs (start cfg ex_progs) (firstn k (round_robin 7 12)))))) (seq 0 85) = true
+  /\ cancelled (sh (run ex_cfg ex_progs (start ex_cfg ex_progs) (round_robin 7 12))) = true.
+Proof. vm_compute. split; reflexivity. Qed.
+
+(* ------------------------------------------------------------------ runs ended through the T by a custom command *)
+
+(* T.Skip / T.FailNow / T.Fatal called by a custom command leave the line through runtime.Goexit: the
+   script goes straight to its deferred functions with its background commands untouched - which the
+   end of run() then interrupts and waits for (no_bg_left holds for every script) *)
+Lemma ended_through_t cfg p s c ss pc a :
+  ph ss = Running pc -> nth_error (body p) pc = Some a -> (a = ATSkip \/ a = ATFail) ->
+  sstep cfg p s c ss = (c, set_ph ss (Ending (match a with ATSkip => VSkip | _ => VFail end) SDefers), NoEffect).
+Proof. intros Hph Ha [->| ->]; unfold sstep; rewrite Hph, Ha; reflexivity. Qed.
+
+(* a background command started by the path of its program needs no PATH *)
+Lemma bg_by_path_starts cfg s c ss h neg :
+  bg_by_path h = true ->
+  exec_action cfg s c ss (ABg h neg) = (c, add_obs (set_bgl ss (bgl ss ++ [(h, neg)])) [EvBgStart h], OCont).
+Proof. intro H. cbn [exec_action]. now rewrite H. Qed.
+
+Example ended_through_t_example :
+  let p := ex_script [ABg 1 false; ATSkip; AFail] in
+  let st := run ex_cfg [p] (init [p]) (round_robin 1 12) in
+  map ph (scripts st) = [Done VSkip]
+  /\ map (fun ss => (bg_started (obs ss), bg_gone (obs ss), bg_waited (obs ss), defer_runs (obs ss))) (scripts st) = [([1], [1], [1], [7])].
+Proof. vm_compute. split; reflexivity. Qed.
